@@ -314,4 +314,47 @@ def translate (t : List Rat) (f : Fld) : Fld :=
   { f with mesh := { f.mesh with region := shiftRegion t f.mesh.region,
                                  subs := f.mesh.subs.map fun p => (p.1, shiftRegion t p.2) } }
 
+/-- shape of a result (a bare array of component values has the empty shape) -/
+def Res.shape : Res → List Nat
+  | .vals _ => []
+  | .field g => g.data.shape
+
+/-- number of components of a result -/
+def Res.nv : Res → Nat
+  | .vals v => v.length
+  | .field g => g.nvdim
+
+/-- component `c` at index `i` of a result -/
+def Res.cval : Res → List Nat → Nat → Rat
+  | .vals v, _, c => v.getD c 0
+  | .field g, i, c => cget g.data i c
+
+/-- the mesh a result lives on, if it is a field -/
+def Res.mesh? : Res → Option Mesh
+  | .vals _ => none
+  | .field g => some g.mesh
+
+/-- the value the property assigns to component `c` at index `i` of
+`integrate(direction, cumulative)` (spec layer) -/
+def ival (f : Fld) (dir : Dir) (cum : Bool) (i : List Nat) (c : Nat) : Rat :=
+  match dir with
+  | .none => dV f.mesh * nestSum f.data.shape fun t => cget f.data t c
+  | .name d =>
+    match f.mesh.region.dim2index d with
+    | .ok ax =>
+      if cum then
+        f.mesh.cellAt ax * (sumTo (i.getD ax 0) (fun l => cget f.data (setAt i ax l) c) + cget f.data i c / 2)
+      else f.mesh.cellAt ax * sumTo (f.mesh.nAt ax) fun j => cget f.data (insertAt i ax j) c
+    | .error _ => 0
+  | _ => 0
+
+/-- the shape of the result of `integrate(direction, cumulative)` (spec layer) -/
+def ishape (f : Fld) (dir : Dir) (cum : Bool) : List Nat :=
+  match dir with
+  | .name d =>
+    match f.mesh.region.dim2index d with
+    | .ok ax => if cum then f.mesh.n else removeAt f.mesh.n ax
+    | .error _ => []
+  | _ => []
+
 end DFV.C06
